@@ -35,3 +35,17 @@ Theorem C18_pinned_integer_recogniser_refuted : exists s, is_integer_pinned s = 
 Proof. exact is_integer_pinned_refuted. Qed.
 Example C18_fixed_integer_recogniser_rejects_bare_sign : is_integer [43%N] = false /\ is_integer [45%N] = false.
 Proof. split; reflexivity. Qed.
+
+(* Bowring's closed formula (Ellipsoid::xyz2blh) is exact on the ellipsoid: for the meridian point (a cos u, b sin u) the two
+   arguments of its atan2 are in the ratio (a sin u) : (b cos u), the tangent of the geodetic latitude; the parametric latitude
+   it starts from is the true one.  (With a height the formula is approximate: the size of that error is sampled, C18 partial.) *)
+Theorem C18_bowring_exact_on_the_ellipsoid (a b u : R) : (0 < a -> 0 < b ->
+  let e2 := (a * a - b * b) / (a * a) in
+  let e22 := (a * a - b * b) / (b * b) in
+  let p := a * cos u in let z := b * sin u in
+  (z + e22 * b * (sin u * sin u) * sin u) * (b * cos u) = (p - e2 * a * (cos u * cos u) * cos u) * (a * sin u))%R.
+Proof. exact (bowring_exact_on_the_ellipsoid a b u). Qed.
+Print Assumptions C18_bowring_exact_on_the_ellipsoid.
+Theorem C18_bowring_parametric_latitude_exact (a b u : R) : (0 < a -> 0 < b -> cos u <> 0 ->
+  a / b * (b * sin u) / (a * cos u) = tan u)%R.
+Proof. exact (bowring_parametric_latitude_exact a b u). Qed.
